@@ -1,7 +1,7 @@
 SPECIFICATION Spec
 CONSTANTS
   Configs <- CoarseQuick
-  Fix = FALSE
+  Fix = TRUE
   EmitGen = FALSE
   Seed = 0
 PROPERTIES ImplPtIdentifies
